@@ -38,5 +38,12 @@ META["C06"] = dict(
     technique="Lean 4 totality proofs over models with explicit panics + guarded-child differential runs",
 )
 
+META["C07"] = dict(
+    text="Lean 4 theorems over a model of TopicName::{try_from, create, is_valid, Display} parameterised by the regex data regenerated from the source with the regex crate's own parser: c07_accept_iff (accepted exactly when /ns/topic with 3-64 class characters and unreserved namespace), c07_total (never a panic, for every string incl. multi-byte first characters), display/parse round trips, c07_server_same_rule (is_valid and the client parser agree), c07_names_are_distinct_keys; tied to the code by running the real parser and the model on the same strings incl. every Unicode class boundary",
+    design_ref="DESIGN.md section 6, C07",
+    note="trusts the regex engine for patterns of the extracted shape (corresponded), the translator, and the Lean kernel",
+    technique="Lean 4 proof over regenerated regex data + differential correspondence",
+)
+
 _PENDING = "not built yet in this session; planned at proof level (DESIGN.md section 6) — will be claimed as soon as its first theorem and correspondence suite exist"
 NOT_APPLICABLE = {f"C{n:02d}": _PENDING for n in range(1, 18)}
